@@ -240,6 +240,8 @@ def write_evidence(ctx, mod, violations):
         'translator': ctx.stats.get('translator', {}),
         'leanchecker': ctx.stats.get('leanchecker', 'not run (quick tier)'),
         'broken': ctx.broken,
+        'source_units_differing_from_pinned_tree': ctx.stats.get('source_units_changed', []),
+        'extra_exploration_rounds': ctx.stats.get('extra_rounds', 0),
         'known_findings_seen': ctx.stats.get('known_seen', []),
         'notes': ctx.notes[-40:],
     }
@@ -275,7 +277,13 @@ def main():
     rc = 2
     try:
         if a.replay:
-            rc = mod.replay(ctx, a.replay)
+            # a monitor scenario may have needed a session-history prologue (common.history_prologue):
+            # try every variant, stop at the first that reproduces
+            for k in range(10):
+                os.environ['VERIF_FORCE_PROLOGUE'] = str(k)
+                rc = mod.replay(ctx, a.replay)
+                if rc != 0 or not getattr(mod, 'USES_PROLOGUE', False):
+                    break
         else:
             rc = run_check(ctx, mod)
     except subprocess.TimeoutExpired as ex:
@@ -322,9 +330,33 @@ def run_check(ctx, mod):
         return 2
     if not driver_ok:
         os.environ['PY65_DRIVER'] = os.path.join(LEAN, '.lake', 'build', 'bin', 'specdriver')
+    # source watch (never a verdict, only effort): on a tree that differs from the pinned one the
+    # exploration is repeated with fresh seeds while nothing concrete has been found
+    try:
+        import srcwatch
+        ctx.src_changed = srcwatch.changed(REPO)
+    except Exception as ex:      # noqa
+        ctx.src_changed = []
+        ctx.note('source watch failed: %r' % (ex,))
+    ctx.hint_ints = sorted(set(i for c in ctx.src_changed for i in c['new_ints']))
+    ctx.hint_strs = sorted(set(x for c in ctx.src_changed for x in c['new_strs']))
+    if ctx.src_changed:
+        ctx.note('source differs from the pinned tree in %d unit(s): %s' % (
+            len(ctx.src_changed), ', '.join('%s:%s' % (c['file'].split('/')[-1], c['unit']) for c in ctx.src_changed[:6])))
+    ctx.stats['source_units_changed'] = ['%s:%s' % (c['file'], c['unit']) for c in ctx.src_changed[:40]]
     # stage 4+5 (property specific): fills ctx.findings / ctx.broken / ctx.stats
     try:
         mod.explore(ctx)
+        base_seed, rounds = ctx.seed, 0
+        extra = int(os.environ.get('VERIF_EXTRA_ROUNDS', '4'))
+        while (ctx.src_changed or ctx.broken) and not ctx.findings and rounds < extra \
+                and ctx.wall() < float(os.environ.get('VERIF_EXTRA_BUDGET_S', '600')):
+            rounds += 1
+            ctx.seed = base_seed + 7919 * rounds
+            ctx.note('nothing concrete found yet: extra exploration round %d (seed %d)' % (rounds, ctx.seed))
+            mod.explore(ctx)
+        ctx.seed = base_seed
+        ctx.stats['extra_rounds'] = rounds
     except subprocess.TimeoutExpired:
         raise
     except Exception as ex:
